@@ -26,7 +26,7 @@ RULE = ("k=2..3 instances, 3-8 requests each from {begin-session (with / without
 ASSUMPTIONS = ["the instance that is stopped / timed out is not compared after that point; all others are",
                "responses are compared as parsed JSON (key order ignored), instance ids normalised"]
 REQUIRED = {"twin_cases": 5, "short_lived_responses_after_expiry": 30, "malformed_foreign_requests": 10, "file_based_factories": 5, "solo_replays_in_fresh_process": 100, "interleavings": 200, "responses_compared": 2000, "solo_replays": 100}
-BUDGET_S = {"quick": 110, "thorough": 1500}
+BUDGET_S = {"quick": 170, "thorough": 1500}
 
 
 def req_pool(rng, variant):
